@@ -221,7 +221,15 @@ func scenOptGrid(st *ekit.Stats, tier string) {
 			add(true, "subscribe-without-sub:"+p, "--"+p, "--connect", "@A", "--data", "x", "--subscribe", "a")
 		}
 	}
+	// ... whatever the order of the options on the command line
+	for _, p := range protocols {
+		if p != "sub" {
+			add(true, "subscribe-first-without-sub:"+p, "--subscribe", "a", "--"+p, "--connect", "@A", "--data", "x")
+			add(true, "subscribe-before-protocol-without-sub:"+p, "--connect", "@A", "--subscribe=a", "--"+p, "--data", "x")
+		}
+	}
 	cases = append(cases, optCase{name: "control:subscribe-with-sub", args: []string{"--sub", "--connect", "@A", "--subscribe", "a"}, control: true})
+	cases = append(cases, optCase{name: "control:subscribe-first-with-sub", args: []string{"--subscribe", "a", "--sub", "--connect", "@A"}, control: true})
 	// TLS without certificate / CA
 	for _, sch := range []string{"tls+tcp", "wss"} {
 		suffix := ""
